@@ -1,21 +1,28 @@
 #!/bin/bash
 # selftest/determinism.sh [count] : the full event log of <count> runs per property must be
 # byte-identical across processes, GOMAXPROCS 1/4/16 and the plain/race builds.
-# (C11 paths contain the per-process temp dir; they are normalised.)
-count="${1:-300}"
+# (C11/C05 paths contain the per-process temp dir; they are normalised.)
+# The six configurations of a property run side by side.
+count="${1:-1000}"
 cd "$(dirname "$0")/.." || exit 2
 bin/check setup >/dev/null || exit 2
+tmp=$(mktemp -d /tmp/det-XXXXXX); trap 'rm -rf "$tmp"' EXIT
 rc=0
 for p in C03 C04 C05 C11 C14 C20; do
-  ref=""
+  i=0
   for cfg in "1 plain" "4 plain" "16 plain" "16 plain" "4 race" "16 race"; do
     set -- $cfg
     bin=.build/simcheck; [ "$2" = race ] && bin=.build/simcheck-race
     case $p in C03|C05|C20) bin=.build/simcheck-i; [ "$2" = race ] && bin=.build/simcheck-i-race;; esac
-    h=$(GOMAXPROCS=$1 GORACE="exitcode=0 halt_on_error=0 log_path=.build/racelog/det" VERIF_RACELOG=.build/racelog/det VERIF_SEED="${VERIF_SEED:-1}" \
-        $bin trace -prop $p -seed "${VERIF_SEED:-1}" -from 0 -count "$count" 2>/dev/null | sed -E 's#/tmp/c(11|05)[a-z]*-[0-9-]*#TMP#g' | md5sum | cut -c1-16)
-    [ -z "$ref" ] && ref=$h
-    if [ "$h" != "$ref" ]; then echo "NONDETERMINISTIC $p: $cfg gives $h, expected $ref"; rc=1; fi
+    i=$((i+1))
+    ( GOMAXPROCS=$1 GORACE="exitcode=0 halt_on_error=0 log_path=$tmp/racelog" VERIF_RACELOG=$tmp/racelog VERIF_SEED="${VERIF_SEED:-1}" \
+        $bin trace -prop $p -seed "${VERIF_SEED:-1}" -from 0 -count "$count" 2>/dev/null | sed -E 's#/tmp/c(11|05)[a-z]*-[0-9-]*#TMP#g' | md5sum | cut -c1-16 > "$tmp/$p.$i" ) &
+  done
+  wait
+  ref=$(cat "$tmp/$p.1")
+  for k in 2 3 4 5 6; do
+    h=$(cat "$tmp/$p.$k")
+    if [ "$h" != "$ref" ]; then echo "NONDETERMINISTIC $p: configuration $k gives $h, expected $ref"; rc=1; fi
   done
   echo "$p deterministic over 6 configurations x $count runs ($ref)"
 done
